@@ -167,7 +167,9 @@ class Ctx:
             else:
                 shutil.move(src, dst) if src.startswith(self.scratch) else shutil.copy(src, dst)
         out = os.path.join(d, "tlc.out")
-        cmd = ["timeout", str(timeout), "java", "-XX:+UseParallelGC", "-Xss64m"]
+        jtmp = os.path.join(d, "jtmp")
+        os.makedirs(jtmp, exist_ok=True)
+        cmd = ["timeout", str(timeout), "java", "-XX:+UseParallelGC", "-Xss64m", "-Djava.io.tmpdir=" + jtmp]
         if dfs:
             cmd += ["-Dtlc2.tool.queue.IStateQueue=StateDeque"]
         cmd += ["-cp", "/opt/veriftools/tla/tla2tools.jar:/opt/veriftools/tla/CommunityModules-deps.jar",
@@ -189,8 +191,9 @@ class Ctx:
         with open(out, "wb") as fo:
             p = subprocess.run(cmd, cwd=d, stdout=fo, stderr=subprocess.STDOUT)
         wall = time.time() - t
-        res = {"out": out, "dir": d, "wall": wall, "rc": p.returncode, "cmd": " ".join(cmd[3:]),
+        res = {"out": out, "dir": d, "wall": wall, "rc": p.returncode, "cmd": " ".join(cmd[6:]),
                "generated": 0, "distinct": 0, "violated": False, "ok": False}
+        shutil.rmtree(jtmp, ignore_errors=True)
         tail = _tail(out, 20000)
         m = None
         for m in re.finditer(r"(\d+) states generated, (\d+) distinct states found", tail):
